@@ -6,7 +6,23 @@ CHECKS = [
      "text": "every generated message type of every corpus program is compared, variant by variant and field by field, with a reference model computed from the annotated source; wire names are read out of serde_derive's own expansion. Decides the shape for the corpus programs (all repo tests/examples + witnesses), not for all programs.",
      "design_ref": "DESIGN.md §5 C01", "note": TV_NOTE,
      "technique": "static translation validation: syn AST rules over rustc -Zunpretty=expanded output vs reference model"},
+    {"id": "C02", "engine": "E-X", "level": "translation_validation",
+     "text": "every dispatch arm (K-enums, struct messages, contract-level wrappers) of every corpus program is reduced to a normal form (handler, ctx expression, argument bindings resolved through the arm pattern, result adapter) and compared with the model; the From<tuple> impls of the context structs in sylvia/src are checked field by field (R1). Handler bodies are not analysed.",
+     "design_ref": "DESIGN.md §5 C02, §3.2 R1", "note": TV_NOTE,
+     "technique": "static translation validation of expanded dispatch code + field-provenance rule over sylvia/src/ctx.rs"},
+    {"id": "C03", "engine": "E-X", "level": "translation_validation",
+     "text": "control-flow skeleton of the hand-written Deserialize of each contract-level message, its variants, untagged Serialize, From impls and panic sites are validated against the declared parts; for every item and kind the published name list must equal the names serde_derive (de)serialises under.",
+     "design_ref": "DESIGN.md §5 C03", "note": TV_NOTE,
+     "technique": "static translation validation: skeleton matching over expanded AST; list-vs-serde-literal comparison"},
+    {"id": "C04", "engine": "E-X + E-G", "level": "translation_validation",
+     "text": "kind partition of handlers over generated types, K-typed-only mentions inside each K wrapper, entry points and multitest Contract methods decoding only their own kind's wrapper; for all inputs: the generator's keyword tables (G4) and name tables (G5) cannot merge kinds.",
+     "design_ref": "DESIGN.md §5 C04, §3.1 G4/G5", "note": TV_NOTE,
+     "technique": "static translation validation + closed-table rules over the generator's syn AST"},
+    {"id": "C05", "engine": "E-X + E-W", "level": "translation_validation",
+     "text": "each wrapper evaluates assert_no_intersection in a const item over one list per part; lists strictly increasing and equal to the wire names; compile witnesses: colliding programs rejected by rustc (E0080 at the contract), twins accepted; const-eval matrix (798 list tuples) decided by rustc's const evaluator, rejected set must equal the intersecting set.",
+     "design_ref": "DESIGN.md §5 C05", "note": TV_NOTE + "; the merge scan is witnessed on a finite matrix, not proved",
+     "technique": "static translation validation + compile-fail/compile-pass witnesses (const evaluation by rustc, no run-time execution)"},
 ]
 
 PENDING = "check under construction in this session (DESIGN.md §5 describes the planned rule); not claimed until its rule is armed"
-NOT_APPLICABLE = [{"property_id": f"C{n:02d}", "reason": PENDING} for n in range(2, 21)]
+NOT_APPLICABLE = [{"property_id": f"C{n:02d}", "reason": PENDING} for n in range(6, 21)]
